@@ -63,14 +63,22 @@ _A4 = {"alg4_add_tf_f64": "Add<&f64> for &TwoFloat", "alg4_add_f64_tf": "Add<&Tw
        "alg6_add_tf_tf": "Add<&TwoFloat> for &TwoFloat", "alg6_sub_tf_tf": "Sub<&TwoFloat> for &TwoFloat", "alg6_add_assign_tf": "AddAssign<&TwoFloat> for TwoFloat",
        "alg6_sub_assign_tf": "SubAssign<&TwoFloat> for TwoFloat"}
 for _n, _f in _A4.items():
-    ob("c03::" + _n, "C03", cls="miter", timeout=300, functions=[_f], backend="cbmc+cvc5")
+    ob("c03::" + _n, "C03", cls="miter", timeout=300, functions=[_f], backend="cbmc+cvc5", witness="c03::bound_" + _n.split("_", 1)[1])
+_WIT = {"alg4_add_tf_f64": "bound_add_tf_f64", "alg4_add_f64_tf": "bound_add_f64_tf", "alg4_sub_tf_f64": "bound_sub_tf_f64", "alg4_sub_f64_tf": "bound_sub_f64_tf",
+        "alg4_add_assign_f64": "bound_add_assign_f64", "alg4_sub_assign_f64": "bound_sub_assign_f64", "alg6_add_tf_tf": "bound_add_tf_tf", "alg6_sub_tf_tf": "bound_sub_tf_tf",
+        "alg6_add_assign_tf": "bound_add_assign_tf", "alg6_sub_assign_tf": "bound_sub_assign_tf"}
+for _n, _w in _WIT.items():
+    ob("c03::" + _w, "C03", tier="witness", cls="bounded", timeout=420, functions=[_A4[_n]],
+       bound={"significand_bits": 12, "high_words": "[2^-30, 2^30]", "low_words": "0 or >= 2^-140"})
 for _n in ("add_tf_tf", "sub_tf_tf", "add_tf_f64", "add_f64_tf", "sub_tf_f64", "sub_f64_tf", "add_assign", "sub_assign"):
     ob("c03::zero_sum_" + _n, "C03", timeout=600, functions=["Add/Sub/AddAssign/SubAssign bodies (zero-sum clause)"])
 
 # ------------------------------------------------------------------ C04 / C05 (f64 divisor)
 for _n, _f in {"alg9_mul_tf_f64": "Mul<&f64> for &TwoFloat", "alg9_mul_f64_tf": "Mul<&TwoFloat> for &f64", "alg9_mul_assign_f64": "MulAssign<&f64> for TwoFloat",
                "alg12_mul_tf_tf": "Mul<&TwoFloat> for &TwoFloat", "alg12_mul_assign_tf": "MulAssign<&TwoFloat> for TwoFloat"}.items():
-    ob("c04::" + _n, ["C04", "C12", "C11"], cls="miter", timeout=600, functions=[_f], backend="cbmc+cvc5", share=_n.startswith("alg12"))
+    ob("c04::" + _n, ["C04", "C12", "C11"], cls="miter", timeout=600, functions=[_f], backend="cbmc+cvc5", share=_n.startswith("alg12"), witness="c04::bound_" + _n.split("_", 1)[1])
+    ob("c04::bound_" + _n.split("_", 1)[1], "C04", tier="witness", cls="bounded", timeout=420, functions=[_f],
+       bound={"significand_bits": 12, "high_words": "[2^-30, 2^30]", "low_words": "0 or >= 2^-90"})
 for _n, _f in {"alg15_div_tf_f64": "Div<&f64> for &TwoFloat", "alg15_div_assign_f64": "DivAssign<&f64> for TwoFloat", "alg15_new_div": "TwoFloat::new_div"}.items():
     ob("c04::" + _n, ["C05", "C02"], cls="miter", timeout=600, functions=[_f], backend="cbmc+cvc5", share=True)
 ob("c04::mul_zero_factor_f64", "C04", timeout=900, functions=["Mul/MulAssign bodies (zero factor)"])
@@ -252,7 +260,7 @@ def select(prop, tier, seed=0):
     """obligations run by `check <prop> --tier <tier>`: the rows owned by the property (first entry of
     props).  Rows that merely serve the property are discharged by their owner's check and are listed
     in the evidence under `rests_on`."""
-    rows = [o for o in ALL if (o["props"][0] == prop or ((o.get("native") or o.get("share")) and prop in o["props"])) and o["tier"] != "rotated" and (tier == "thorough" or o["tier"] == "quick")]
+    rows = [o for o in ALL if (o["props"][0] == prop or ((o.get("native") or o.get("share")) and prop in o["props"])) and o["tier"] not in ("rotated", "witness") and (tier == "thorough" or o["tier"] == "quick")]
     if tier == "thorough":
         # seed-rotated sample of the ghost-value accuracy obligations (tier "rotated"): gaps 0, +-1, +-53 always,
         # plus 7 seeded gaps per algorithm variant; the evidence lists exactly the (variant, gap) pairs discharged
